@@ -330,6 +330,10 @@ func escCases(r *rand.Rand, n int, maxBytes int) []vcase {
 		if L%7 == 0 {
 			add([]byte("{\"" + string(body) + "\":\"" + string(body) + "\"}"))
 		}
+		if L%3 == 0 {
+			// other strings already in (and later added to) the string buffer when it has to grow for this one
+			add([]byte("[\"pre\\n\",\"" + string(body) + "\",\"post\\t\"]"))
+		}
 	}
 	return out
 }
